@@ -141,9 +141,44 @@ class Models(object):
             return mk("subrange", v, idx)
         if v.op == "emap":
             return self.map_index(ev, v, idx)
+        if idx.op == "position_val" and idx.a[0].op == "iter":
+            # v[v0.iter().position(p)] where v is v0 after updates of that very element: the first element of v0
+            # satisfying p, updated (same terms as iter().find(p) / iter_mut().find(p))
+            base, fs = self._same_first(v, idx)
+            if base is not None:
+                x = mk("find_val", idx.a[0], idx.a[1])
+                for f in fs:
+                    x = tm.apply_lam(f, [x])
+                return x
         return mk("index", v, idx)
 
+    def _same_first(self, v, idx):
+        """v = upd_first(... upd_first(v0, p, f1) ..., p, fk) with idx = position_val(iter(v0), p): (v0, [f1..fk])"""
+        fs = []
+        cur = v
+        for _ in range(8):
+            if cur is idx.a[0].a[0]:
+                return cur, list(reversed(fs))
+            if cur.op == "upd_first" and cur.a[1] is idx.a[1]:
+                fs.append(cur.a[2])
+                cur = cur.a[0]
+                continue
+            break
+        return None, None
+
     def set_index(self, ev, v, idx, new):
+        if idx.op == "position_val" and idx.a[0].op == "iter":
+            base, fs = self._same_first(v, idx)
+            if base is not None:
+                # the element at that position, after the updates already made to it
+                cur_el = self.index_value(ev, v, idx)
+                e = tm.fresh("e")
+                x = e
+                for f in fs:
+                    x = tm.apply_lam(f, [x])
+                # new is written in terms of the current element; express it in terms of the original one
+                body = tm.subst(new, {cur_el: x}) if fs else tm.subst(new, {mk("find_val", idx.a[0], idx.a[1]): e})
+                return mk("upd_first", base, idx.a[1], tm.lam([e], body))
         if v.op == "seq" and idx.op == "num" and isinstance(idx.a[0], int) and 0 <= idx.a[0] < len(v.a):
             args = list(v.a)
             args[idx.a[0]] = new
